@@ -186,9 +186,9 @@ type simCore struct {
 	s *session
 }
 
-func (c simCore) Enabled(l zapcore.Level) bool        { return l >= zapcore.WarnLevel }
-func (c simCore) With([]zapcore.Field) zapcore.Core   { return c }
-func (c simCore) Sync() error                         { return nil }
+func (c simCore) Enabled(l zapcore.Level) bool      { return l >= zapcore.WarnLevel }
+func (c simCore) With([]zapcore.Field) zapcore.Core { return c }
+func (c simCore) Sync() error                       { return nil }
 func (c simCore) Check(e zapcore.Entry, ce *zapcore.CheckedEntry) *zapcore.CheckedEntry {
 	if c.Enabled(e.Level) {
 		return ce.AddCore(e, c)
@@ -408,9 +408,9 @@ func run(t *testing.T, d *sim.D) {
 			w.batch = 5000
 		}
 		w.start0 = uint64(d.Cfg.Get("start", 1))
-	if w.start0 < 1 { // the node starts at the registry deployment block or at last processed + 1, never at 0
-		w.start0 = 1
-	}
+		if w.start0 < 1 { // the node starts at the registry deployment block or at last processed + 1, never at 0
+			w.start0 = 1
+		}
 		executionclient.VerifDial = w.dial
 		defer func() { executionclient.VerifDial = nil }()
 		defer w.teardown()
@@ -719,7 +719,7 @@ var Specs = map[string]*sim.Spec{
 			"node start-up glue of cli/operator/node.go (from = last processed block + 1; restart after exit)",
 			"clock: testing/synctest fake clock; zap core turning Fatal/Panic into goroutine exit",
 		},
-		Rule:        "seeded programs of mine / boot / announce (single, repeated, skipping, burst) / drop_idle / arm_drop (k-th request) / arm_getlogs_fail (k-th) / arm_sub_fail / refuse_dials / advance / restart, followed by a fault-free finale (bounded liveness); batch size 1-5000, follow distance 0-8, start block 0-40. Non-trivial = at least 2 non-empty BlockLogs delivered and at least 1 head announced; distinct = hash of the sequence of (op, client state, undelivered log blocks capped 3, unannounced blocks capped 3, armed faults, how the current invocation ended, pending faults).",
-		Assumptions: []string{"the node answers eth_getLogs with logs in canonical (block, tx index, log index) order and honours the address filter", "heads are announced in non-decreasing order (no reorganisations)", "one external event at a time: every injected event is followed by quiescence of all goroutines before the next"},
+		Rule:        "seeded programs of mine / boot / announce (single, repeated, skipping, burst) / drop_idle / arm_drop (k-th request) / arm_getlogs_fail (k-th) / arm_sub_fail / refuse_dials / advance / restart, followed by a fault-free finale (bounded liveness); batch size 1-5000, follow distance 0-8, start block 1-40. Non-trivial = at least 2 non-empty BlockLogs delivered and at least 1 head announced; distinct = hash of the sequence of (op, client state, undelivered log blocks capped 3, unannounced blocks capped 3, armed faults, how the current invocation ended, pending faults).",
+		Assumptions: []string{"a connection dropped instead of a reply is closed once the client has finished sending the request and waits for the reply (the go-ethereum rpc.Client race between a read error and the reqSent notification of the request in flight is not explored: it depends on goroutine scheduling, no seed controls it)", "the node answers eth_getLogs with logs in canonical (block, tx index, log index) order and honours the address filter", "heads are announced in non-decreasing order (no reorganisations)", "one external event at a time: every injected event is followed by quiescence of all goroutines before the next"},
 	},
 }
